@@ -2,4 +2,4 @@ From Coq Require Import Extraction ExtrOcamlBasic.
 From OV Require Import Common.Base C10.Model C10.Fine.
 Extraction Language OCaml.
 Extraction "C10_model.ml" mkVariant mkCfg init_pair step run is_active xchg xchg_crossed xchgs spec_eff
-  finit fstep frun thrs_of quiescent.
+  finit fstep frun thrs_of quiescent tracked.
